@@ -160,6 +160,9 @@ func env(name, def string) string {
 
 func verifDir() string { return env("VERIF_DIR", "/verif") }
 
+// outDir: where evidence and replays are written (a scratch directory for mutation runs).
+func outDir() string { return env("VERIF_OUT", verifDir()) }
+
 func main() {
 	if len(os.Args) < 2 {
 		usage()
@@ -473,7 +476,7 @@ func runParent(id, tier string) int {
 	var lines []string
 	unknown := 0
 	sort.Slice(total.Violations, func(i, j int) bool { return total.Violations[i].Sig < total.Violations[j].Sig })
-	os.MkdirAll(verifDir()+"/replays/"+id, 0755)
+	os.MkdirAll(outDir()+"/replays/"+id, 0755)
 	for _, v := range total.Violations {
 		isKnown := false
 		for _, k := range known {
@@ -486,7 +489,7 @@ func runParent(id, tier string) int {
 			continue
 		}
 		unknown++
-		path := fmt.Sprintf("%s/replays/%s/%s.json", verifDir(), id, sanitize(v.Sig))
+		path := fmt.Sprintf("%s/replays/%s/%s.json", outDir(), id, sanitize(v.Sig))
 		rf := map[string]any{"property": id, "tier": tier, "sig": v.Sig, "clause": v.Clause, "detail": v.Detail, "case": v.Case, "count": v.Count}
 		b, _ := json.MarshalIndent(rf, "", " ")
 		os.WriteFile(path, b, 0644)
@@ -582,8 +585,8 @@ func writeEvidence(ck *Check, tier string, r *Result, wall time.Duration, unknow
 		"notes":       r.Notes,
 	}
 	b, _ := json.MarshalIndent(ev, "", " ")
-	os.MkdirAll(verifDir()+"/evidence", 0755)
-	os.WriteFile(verifDir()+"/evidence/"+ck.ID+".json", b, 0644)
+	os.MkdirAll(outDir()+"/evidence", 0755)
+	os.WriteFile(outDir()+"/evidence/"+ck.ID+".json", b, 0644)
 }
 
 func runReplay(path string) int {
